@@ -313,11 +313,20 @@ type gAction struct {
 	Srid  int             `json:"srid"`
 	V     json.RawMessage `json:"v"`
 	L     string          `json:"l"`
+	Wl    string          `json:"wl"`  // pushbad: the layout of the misfit part ("" = the default choice)
+	Rep   *flatRep        `json:"rep"` // newflat: Deflate(v), computed by the model
+}
+
+type flatRep struct {
+	Flat  []int   `json:"flat"`
+	Ends  []int   `json:"ends"`
+	Endss [][]int `json:"endss"`
 }
 
 type gCase struct {
 	K    string    `json:"k"`
 	L    string    `json:"l"`
+	L2   string    `json:"l2"` // layout of the second object when it differs from the first one's
 	Hist []gAction `json:"hist"`
 }
 
@@ -419,8 +428,11 @@ func wrongLayout(l string) string {
 }
 
 // a part of the wrong layout for pushbad: empty, or holding one coordinate
-func badPart(k, l string, empty bool) geom.T {
+func badPart(k, l, wrong string, empty bool) geom.T {
 	wl := layoutOf(wrongLayout(l))
+	if wrong != "" {
+		wl = layoutOf(wrong)
+	}
 	c := make(geom.Coord, wl.Stride())
 	for i := range c {
 		c[i] = tok2f(70 + i)
@@ -450,9 +462,47 @@ func badPart(k, l string, empty bool) geom.T {
 	panic("harness: badPart")
 }
 
+// newFlat builds a geometry of kind k through the New<Kind>Flat constructor from the representation the model computed.
+func newFlat(k string, l geom.Layout, r *flatRep) geom.T {
+	flat := make([]float64, len(r.Flat))
+	for i, t := range r.Flat {
+		flat[i] = tok2f(t)
+	}
+	switch k {
+	case "PT":
+		if len(flat) == 0 {
+			return geom.NewPointEmpty(l)
+		}
+		return geom.NewPointFlat(l, flat)
+	case "LS":
+		return geom.NewLineStringFlat(l, flat)
+	case "LR":
+		return geom.NewLinearRingFlat(l, flat)
+	case "PG":
+		return geom.NewPolygonFlat(l, flat, append([]int{}, r.Ends...))
+	case "MLS":
+		return geom.NewMultiLineStringFlat(l, flat, append([]int{}, r.Ends...))
+	case "MPT":
+		if l.Stride() > 0 && len(r.Ends)*l.Stride() == len(flat) {
+			return geom.NewMultiPointFlat(l, flat) // no empty member: the constructor derives the ends itself
+		}
+		return geom.NewMultiPointFlat(l, flat, geom.NewMultiPointFlatOptionWithEnds(append([]int{}, r.Ends...)))
+	case "MPG":
+		endss := make([][]int, len(r.Endss))
+		for i, es := range r.Endss {
+			endss[i] = append([]int{}, es...)
+		}
+		return geom.NewMultiPolygonFlat(l, flat, endss)
+	}
+	panic("harness: newFlat on " + k)
+}
+
 func geomopsHandler(raw json.RawMessage) map[string]any {
 	c := dec[gCase](raw)
 	o := [3]geom.T{nil, newGeom(c.K, layoutOf(c.L)), newGeom(c.K, layoutOf(c.L))}
+	if c.L2 != "" {
+		o[2] = newGeom(c.K, layoutOf(c.L2))
+	}
 	type poolEnt struct {
 		k string
 		v json.RawMessage
@@ -494,7 +544,9 @@ func geomopsHandler(raw json.RawMessage) map[string]any {
 				a2.Part = a.Part2
 				errc = errClass(o[a.To].(*geom.GeometryCollection).Push(getPart(a), getPart(a2)))
 			case "pushbad":
-				errc = errClass(push(o[a.To], badPart(c.K, c.L, a.Empty)))
+				errc = errClass(push(o[a.To], badPart(c.K, c.L, a.Wl, a.Empty)))
+			case "newflat":
+				o[a.To] = newFlat(c.K, o[a.To].Layout(), a.Rep)
 			case "reverse":
 				reverse(o[a.To])
 			case "swap":
